@@ -2162,9 +2162,18 @@ func derivesFromCall(v ssa.Value, callee string, depth int) bool {
 		}
 		return len(x.Edges) > 0
 	case *ssa.Slice:
+		for _, e := range varargs(x) {
+			if derivesFromCall(e, callee, depth+1) {
+				return true
+			}
+		}
 		return derivesFromCall(x.X, callee, depth+1)
 	case *ssa.Extract:
 		return derivesFromCall(x.Tuple, callee, depth+1)
+	case *ssa.BinOp:
+		return derivesFromCall(x.X, callee, depth+1) || derivesFromCall(x.Y, callee, depth+1)
+	case *ssa.MakeInterface:
+		return derivesFromCall(x.X, callee, depth+1)
 	}
 	return false
 }
@@ -2553,5 +2562,268 @@ func clauseEmptyURLLabelIsNoURL(c *Ctx, id string) {
 				c.verdict(c.fnKey(f)+":urls-split-non-empty", sp.Pos(), okp && len(nonEmpty) > 0, "split only when the label value is not empty", "a urls label with the empty value (written for every layer without URLs) is split into one empty URL: the layer's source is reconstructed with URLs [\"\"] instead of none")
 			}
 		}
+	}
+}
+
+// clauseCloneReadsThroughGivenReader: the memory store's Clone builds the clone on the reader it opened from the byte source
+// it was given (the background fetch passes a reader that goes through InvokeBackgroundTask), not on the original reader.
+func clauseCloneReadsThroughGivenReader(c *Ctx, id string) {
+	const mm = "metadata/memory"
+	c.clause(id, "T9", "memory.(*reader).Clone returns a reader built on the estargz reader it opened from the given section reader (so background reads go through the background byte source, not the layer's prioritized one)", 1)
+	f := c.mustFn(mm, "(*reader).Clone")
+	if f == nil {
+		return
+	}
+	var opened ssa.Value
+	for _, ci := range callsIn(f, idIs("estargz.Open")) {
+		if isParamish(ci.Common().Args[0]) {
+			opened = resultN(ci, 0)
+		}
+	}
+	n, good := 0, opened != nil
+	for _, ci := range callsIn(f, idIs(mm+".newReader")) {
+		n++
+		if opened == nil || !(stripConv(ci.Common().Args[0]) == stripConv(opened) || flowsFrom(stripConv(ci.Common().Args[0]), opened, 0)) {
+			good = false
+		}
+	}
+	c.verdict(c.fnKey(f)+":clone-on-opened-reader", f.Pos(), good && n > 0, "the clone wraps the reader opened from the given byte source", "the clone is built on the original reader: payload reads of the background fetch bypass the background task manager (they run during prioritized work, escape the concurrency bound and count as on-demand reads)")
+}
+
+// clauseFlightJoinedBeforeReturn: a caller that starts or joins a single-flight fetch does not return while that flight can
+// still write into the caller's buffers.
+func clauseFlightJoinedBeforeReturn(c *Ctx, id string) {
+	const rp = "fs/remote"
+	c.clause(id, "T2", "fs/remote: a single-flight fetch is awaited before its caller returns (Do, or DoChan whose channel is received on every path to a return): the flight writes into the caller's buffers", 1)
+	n := 0
+	for _, f := range c.pkgFuncs(rp) {
+		for _, ci := range callsIn(f, func(id string, _ ssa.CallInstruction) bool {
+			return strings.HasSuffix(id, "singleflight.(*Group).Do") || strings.HasSuffix(id, "singleflight.(*Group).DoChan") || strings.HasSuffix(id, "singleflight.(*Group).Forget")
+		}) {
+			idc := calleeID(ci)
+			if strings.HasSuffix(idc, ".Do") {
+				n++
+				c.ok(c.fnKey(f)+":flight-awaited", ci.Pos(), "blocking Do: the caller returns after the flight")
+				continue
+			}
+			if strings.HasSuffix(idc, ".Forget") {
+				continue
+			}
+			n++
+			ch := ci.Value()
+			isCh := func(v ssa.Value) bool { return ch != nil && (stripConv(v) == ssa.Value(ch) || flowsFrom(stripConv(v), ch, 0)) }
+			ri, re := recvEvents(f, isCh)
+			hit, path := reach(f, ci, isReturn, newCuts().addInstr(ri...).addEdges(re))
+			c.verdict(c.fnKey(f)+":flight-awaited", ci.Pos(), hit == nil, "every return after DoChan has received the flight's result", "the caller can return (e.g. on ctx.Done()) while the flight it started or joined is still running: the detached fetch keeps writing into the caller's buffer, which a retried background-task body already reuses: "+c.pathStr(f, path))
+		}
+	}
+	if n == 0 {
+		c.bad(rp+":singleflight", token.NoPos, "no single-flight fetch found in fs/remote")
+	}
+}
+
+// ---- round-3 clauses ----
+
+// clauseCleanupSkipsOnlyLive: the cleanup scan leaves a directory out only because it is a live snapshot (Remove/Cleanup)
+// or not a remote one (Close): no other reason to skip, or leftovers of a crashed Prepare are never reclaimed.
+func clauseCleanupSkipsOnlyLive(c *Ctx, id string) {
+	const sp = "snapshot"
+	c.clause(id, "T1", "getCleanupDirectories skips a scanned directory only on the 'id is known' edge (cleanup of orphans) or on the 'not a remote snapshot' edge (Close): every other directory, temporary ones included, is listed", 1)
+	f := c.mustFn(sp, "(*snapshotter).getCleanupDirectories")
+	if f == nil {
+		return
+	}
+	var appends []ssa.Instruction
+	eachInstr(f, func(i ssa.Instruction) {
+		if ci, ok := i.(*ssa.Call); ok {
+			if b, ok := ci.Call.Value.(*ssa.Builtin); ok && b.Name() == "append" {
+				if sl, ok := ci.Type().Underlying().(*types.Slice); ok && types.Identical(sl.Elem(), types.Typ[types.String]) && typeQName(ci.Type()) == "" {
+					appends = append(appends, i)
+				}
+			}
+		}
+	})
+	if len(appends) == 0 {
+		c.bad(c.fnKey(f)+":list", f.Pos(), "the scan no longer builds the list of directories to remove")
+		return
+	}
+	lookupEdges := func(found bool) []edge {
+		return condEdges(f, func(cond ssa.Value) int {
+			if e, ok := cond.(*ssa.Extract); ok && e.Index == 1 {
+				if _, ok := e.Tuple.(*ssa.Lookup); ok {
+					if found {
+						return 1
+					}
+					return -1
+				}
+			}
+			return 0
+		})
+	}
+	skipEdges := append(lookupEdges(true), lookupEdges(false)...)
+	// the loop over the scanned names: from the instruction that takes the next name, every way back to it passes the
+	// append or one of the two lookup edges
+	var nexts []ssa.Instruction
+	eachInstr(f, func(i ssa.Instruction) {
+		if ia, ok := i.(*ssa.IndexAddr); ok {
+			if _, isSl := ia.X.Type().Underlying().(*types.Slice); isSl && dominatesInstr(i, appends[0]) {
+				if sl, ok := ia.X.Type().Underlying().(*types.Slice); ok && types.Identical(sl.Elem(), types.Typ[types.String]) {
+					nexts = append(nexts, i)
+				}
+			}
+		}
+	})
+	if len(nexts) == 0 {
+		c.unk(c.fnKey(f)+":scan-loop", f.Pos(), "the loop over the scanned directory names was not recognised")
+		return
+	}
+	nx := nexts[len(nexts)-1]
+	hit, path := reach(f, nx, isInstr(nx), newCuts().addInstr(appends...).addEdges(skipEdges))
+	c.verdict(c.fnKey(f)+":skips-only-live", nx.Pos(), hit == nil, "a directory is left out only by the id/remote-name lookups", "the scan can skip a directory for another reason than being a live (or non-remote) snapshot, e.g. by its name: temporary directories left by a crashed Prepare are never reclaimed: "+c.pathStr(f, path))
+}
+
+// clauseRestartFlagWiring: the service hands snapshot.AllowInvalidMountsOnRestart to the snapshotter exactly when the
+// configuration field of that name is set.
+func clauseRestartFlagWiring(c *Ctx, id string) {
+	c.clause(id, "T5", "service: the snapshotter option AllowInvalidMountsOnRestart is added on the true edge of the configuration field of the same name", 1)
+	f := c.mustFn("service", "NewStargzSnapshotterService")
+	if f == nil {
+		return
+	}
+	n := 0
+	eachInstr(f, func(i ssa.Instruction) {
+		// the option value is referenced as a function value
+		var ops []*ssa.Value
+		for _, op := range i.Operands(ops) {
+			if *op == nil {
+				continue
+			}
+			fn, ok := (*op).(*ssa.Function)
+			if !ok || fn.Name() != "AllowInvalidMountsOnRestart" {
+				continue
+			}
+			n++
+			on := condEdges(f, func(cond ssa.Value) int {
+				if _, ok := isFieldLoadAny(cond, "AllowInvalidMountsOnRestart"); ok {
+					return 1
+				}
+				return 0
+			})
+			okp, _ := mustPass(f, i, newCuts().addEdges(on))
+			c.verdict(c.fnKey(f)+":allow-invalid-mounts-wiring", i.Pos(), okp && len(on) > 0, "option follows config.AllowInvalidMountsOnRestart", "the restart tolerance option is driven by another configuration field: allow_invalid_mounts_on_restart is not honoured (or is enabled by an unrelated setting)")
+		}
+	})
+	if n == 0 {
+		c.bad(c.fnKey(f)+":allow-invalid-mounts-wiring", f.Pos(), "the service no longer passes AllowInvalidMountsOnRestart to the snapshotter")
+	}
+}
+
+// clauseStorePoolPremises: three premises of the store's reference pool and use counters.
+func clauseStorePoolPremises(c *Ctx, id string) {
+	c.clause(id, "T9+T1+T2", "store: the per-image pool directory is named by a digest of the reference (injective); a failed read of pooled metadata always falls back to fetching; LayerManager.use counts the use on every return", 3)
+	if f := c.mustFn("store", "(*refPool).metadataDir"); f != nil {
+		good := false
+		for _, r := range realReturns(f) {
+			for _, v := range retVals(r, 0) {
+				if derivesFromCall(v, "github.com/opencontainers/go-digest.FromString", 0) || derivesFromCall(v, "github.com/opencontainers/go-digest.FromBytes", 0) {
+					good = true
+				}
+			}
+		}
+		c.verdict(c.fnKey(f)+":dir-by-digest", f.Pos(), good, "directory name derives from a digest of the reference", "the pool directory is named by a lossy rewriting of the reference (':' and '-' collapse): two images share one manifest/config directory and the second one's layers are reported missing")
+	}
+	if f := c.mustFn("store", "(*refPool).loadRef"); f != nil {
+		reads := callsIn(f, idIs("store.(*refPool).readManifestAndConfig"))
+		fetches := callsIn(f, idIs("store.(*refPool).fetchManifestAndConfig"))
+		good := len(reads) == 1 && len(fetches) >= 1
+		detail := ""
+		if good {
+			for _, er := range errResults(reads[0]) {
+				for _, e := range nonNilEdges(f, er) {
+					first := f.Blocks[e.from].Succs[e.succ].Instrs[0]
+					if isReturn(first) {
+						good = false
+					} else if hit, path := reach(f, first, isReturn, newCuts().addCalls(fetches)); hit != nil {
+						good = false
+						detail = c.pathStr(f, path)
+					}
+				}
+			}
+		}
+		c.verdict(c.fnKey(f)+":read-failure-falls-back", f.Pos(), good, "every failed read of the pooled files leads to a fetch", "a failed read of the pooled manifest/config (e.g. a file another lookup is still writing) is returned instead of falling back to the registry: concurrent first lookups of one image fail: "+detail)
+	}
+	if f := c.mustFn("store", "(*LayerManager).use"); f != nil {
+		var ups []ssa.Instruction
+		eachInstr(f, func(i ssa.Instruction) {
+			if mu, ok := i.(*ssa.MapUpdate); ok {
+				if _, isInt := mu.Value.Type().Underlying().(*types.Basic); isInt {
+					ups = append(ups, i)
+				}
+			}
+		})
+		good := len(ups) > 0
+		for _, r := range realReturns(f) {
+			if o, _ := mustPass(f, r, newCuts().addInstr(ups...)); !o {
+				good = false
+			}
+		}
+		c.verdict(c.fnKey(f)+":counts-every-use", f.Pos(), good, "every return of use has updated the counter", "use can return without counting (e.g. for a layer that is not resolved at that moment): a later release by another client drops the count to zero while this client still uses the layer")
+	}
+}
+
+// clauseCompressorPerCall: the external-TOC compression object holds the TOC of the blob it last finished, so every
+// constructor call must hand out a compressor of its own.
+func clauseCompressorPerCall(c *Ctx, id string) {
+	const xp = "estargz/externaltoc"
+	c.clause(id, "T9", "externaltoc: every constructor of the compression allocates its GzipCompressor (which carries the finished TOC) per call; none is taken from package-level or cached state", 2)
+	n := 0
+	for _, nm := range []string{"NewGzipCompressor", "NewGzipCompressorWithLevel"} {
+		f := c.fn(xp, nm)
+		if f == nil {
+			continue
+		}
+		n++
+		good := true
+		for _, r := range realReturns(f) {
+			for _, v := range retVals(r, 0) {
+				al, ok := stripConv(v).(*ssa.Alloc)
+				if !ok || !al.Heap || al.Parent() != f {
+					good = false
+				}
+			}
+		}
+		c.verdict(c.fnKey(f)+":fresh-compressor", f.Pos(), good, "returns a compressor allocated by this call", "the constructor hands out a shared or cached compressor: layers converted in parallel overwrite each other's TOC buffer and the TOC image maps a layer to another layer's TOC")
+	}
+	for _, nm := range []string{"NewGzipCompressionWithLevel"} {
+		f := c.fn(xp, nm)
+		if f == nil {
+			continue
+		}
+		n++
+		// the compressor field of the returned object comes from a constructor call (or a fresh allocation) in this call
+		good := false
+		eachInstr(f, func(i ssa.Instruction) {
+			st, ok := i.(*ssa.Store)
+			if !ok {
+				return
+			}
+			fa, ok := st.Addr.(*ssa.FieldAddr)
+			if !ok || !strings.Contains(st.Val.Type().String(), "GzipCompressor") {
+				return
+			}
+			_ = fa
+			switch x := stripConv(st.Val).(type) {
+			case *ssa.Call:
+				if t := staticFn(x); t != nil && (t.Name() == "NewGzipCompressorWithLevel" || t.Name() == "NewGzipCompressor") {
+					good = true
+				}
+			case *ssa.Alloc:
+				good = x.Heap
+			}
+		})
+		c.verdict(c.fnKey(f)+":fresh-compressor", f.Pos(), good, "the compression object gets a compressor constructed by this call", "the compression object is built around a shared or cached compressor")
+	}
+	if n == 0 {
+		c.bad(xp+":constructors", token.NoPos, "no constructor of the external-TOC compressor found")
 	}
 }
